@@ -320,6 +320,7 @@ class World:
         self.miss_log = {}
         self.current_req = []
         self.current_kind = None
+        self.in_dispatch = False  # line-level pre-emption only inside operations, never while the harness observes
         self.actor_key = {}  # actor name -> key whose fetch that actor started last (fallback fault addressing)
         self.chunk = k.get("chunk", 4096)
 
@@ -665,7 +666,7 @@ class World:
         sched = self.sched
 
         def local(frame, event, arg):
-            if event == "line" and sched.current is not None and not sched.crashed:
+            if event == "line" and sched.current is not None and not sched.crashed and self.in_dispatch:
                 if len(sched.actors) > 1 and sched.live_workers():
                     sched("line", "%s:%d" % (posixpath.basename(frame.f_code.co_filename), frame.f_lineno), 0)
             return local
@@ -836,6 +837,7 @@ class World:
         obs.store_versions = {r: self.store.current_version(r) for r in self.store.versions}
         crashed = False
         try:
+            self.in_dispatch = True
             self._dispatch(op, obs)
         except SimCrash:
             crashed = True
@@ -843,6 +845,8 @@ class World:
             raise
         except (Exception, KeyboardInterrupt) as e:  # the code under test raised to its caller
             obs.exc = e
+        finally:
+            self.in_dispatch = False
         if self.sched.crashed and not crashed:
             # the crash exception was replaced or swallowed on its way up (e.g. by an error raised from a
             # close() during unwinding): the process is dead all the same
